@@ -7,7 +7,9 @@
    encodings by z3 (for all values) on random instances up to 12 terms;
 3. csr_shim / SA: the real bs_prod on SA operands with concrete cells equals the real scipy result on
    the matrices of two library codes at random vectors;
-4. vacuity guard: three planted mutants of a scratch copy of the real bpauli functions must be found."""
+4. vacuity guard: three planted mutants of a scratch copy of the real bpauli functions must be found;
+5. assignment through a symbolic mask agrees with numpy; class-level containers are restored between paths;
+   the MatchStub's model of pymatching's merge strategies agrees with the real engine on a 2x4 matrix."""
 from __future__ import annotations
 
 import inspect
@@ -157,10 +159,75 @@ def _planted_mutants():
     return found
 
 
+def _array_and_state(rng):
+    """(a) a[mask] = v through a symbolic mask equals numpy's masked assignment on pinned random values;
+    (b) class-level containers filled on one path are restored before the next path;
+    (c) MatchStub: the modelled merge strategies drop exactly the parallel columns pymatching drops."""
+    n = 0
+    for _ in range(6):
+        vals = [rng.randint(-5, 5) for _ in range(5)]
+        thr, new = rng.randint(-3, 3), rng.randint(-9, 9)
+        want = np.array(vals)
+        want[want < thr] = new
+        xs = [z3.Int(f'st_m{i}') for i in range(5)]
+        eng = Engine(name='selftest-mask')
+        with eng:
+            def fn():
+                a = as_sa([SymInt(x) for x in xs])
+                a[a < thr] = new
+                return [term_of(c, 'int') for c in a.cells()]
+            ps = eng.explore(fn)
+        if len(ps) != 1 or ps[0].exc is not None:
+            raise HarnessError(f'selftest: masked assignment forked or raised: {ps[0].exc if ps else None}')
+        s_ = z3.Solver()
+        s_.add(*[x == v for x, v in zip(xs, vals)])
+        s_.add(z3.Or([t != int(w) for t, w in zip(ps[0].value, want)]))
+        if s_.check() != z3.unsat:
+            raise HarnessError('selftest: symbolic masked assignment disagrees with numpy')
+        n += 1
+
+    class Memo:
+        table: dict = {}
+    eng = Engine(name='selftest-isolate', isolate=[Memo])
+    seen = []
+    with eng:
+        b = eng.boolean('st_b') if hasattr(eng, 'boolean') else None
+        x = eng.integer('st_i', 0, 1)
+
+        def fn2():
+            seen.append(dict(Memo.table))
+            Memo.table[len(seen)] = 1
+            return int(x)
+        ps = eng.explore(fn2)
+    if len(ps) != 2 or any(t for t in seen):
+        raise HarnessError(f'selftest: class-level container leaked between paths: {seen}')
+    n += 1
+
+    import pymatching
+    from .stubs import MatchStub
+    H = np.array([[1, 1, 1, 0], [0, 0, 1, 1]], dtype=np.uint8)      # columns 0 and 1 are parallel
+    w = np.array([3.0, 1.0, 1.0, 1.0])
+    eng = Engine(name='selftest-merge')
+    with eng:
+        eng._start_path([])
+        for strat, dropped in (('smallest-weight', set()), ('keep-original', {1}), ('replace', {0})):
+            st = MatchStub(H, spacelike_weights=w, merge_strategy=strat)
+            if st.dropped != dropped:
+                raise HarnessError(f'selftest: MatchStub drops {st.dropped} for {strat}')
+            real = pymatching.Matching(H, weights=w, merge_strategy=strat)
+            c = real.decode(np.array([1, 0], dtype=np.uint8))
+            if any(c[j] for j in dropped) or (strat == 'smallest-weight' and c[0]):
+                raise HarnessError(f'selftest: pymatching {strat} returned {c.tolist()}: stub contract is wrong')
+            n += 1
+    return n
+
+
 def run(seed=0):
     rng = random.Random(seed)
+    e = _array_and_state(rng)
     a = _proxy_semantics(rng)
     b = _rewrite_rules(rng)
     c = _shim_differential(rng, seed)
     d = _planted_mutants()
-    return dict(proxy_semantics_cases=a, rewrite_rule_proofs=b, shim_differential_cases=c, planted_mutants_found=d)
+    return dict(proxy_semantics_cases=a, rewrite_rule_proofs=b, shim_differential_cases=c, planted_mutants_found=d,
+                array_state_stub_cases=e)
